@@ -7,5 +7,5 @@ CONSTANTS
   MaxRelays = 2
 INIT TraceInit
 NEXT TraceNext
-INVARIANTS P1 P2 P3 P4 P5 P6 P7 OnlyShrinks LookupOK ResetOK AgeOK
+INVARIANTS P1 P2 P3 P4 P5 P6 P7 OnlyShrinks LookupOK ResetOK AgeOK ReadOK
 POSTCONDITION TraceAccepted
